@@ -372,7 +372,10 @@ impl<'a, R: Reader + 'a> EhHdrTable<'a, R> {
         };
 
         while len > 1 {
-            let head = reader.split(R::Offset::from_u64((len / 2) * row_size)?)?;
+            let head_len = (len / 2)
+                .checked_mul(row_size)
+                .ok_or(Error::UnsupportedOffset)?;
+            let head = reader.split(R::Offset::from_u64(head_len)?)?;
             let tail = reader.clone();
 
             let pivot =
